@@ -351,6 +351,28 @@ def g_str(s):
 CASE_RE = re.compile(r"=\s*\[(.*?)\]\s*:\s*list Z", re.S)
 
 
+_IMPORTS_BUILT = set()
+
+
+def ensure_imports_built(imports):
+    """The cases files import compiled libraries of the development (CC.Model.X ...); make sure
+    each is up to date with its sources (a model file edited since the last full build would
+    otherwise be loaded stale, or fail with 'inconsistent assumptions').  Once per header."""
+    if imports in _IMPORTS_BUILT:
+        return
+    mods = []
+    for line in re.findall(r"From\s+CC\s+Require\s+(?:Import|Export)\s+(.*?)\.(?=\s|$)", imports, re.S):
+        for m in line.split():
+            rel = m.replace(".", "/") + ".v"
+            if os.path.exists(os.path.join(COQ, rel)):
+                mods.append(rel + "o")
+    if mods:
+        ok, log, _ = ensure_built(only=sorted(set(mods)))
+        if not ok:
+            raise ModelEvalError("could not build the libraries the cases import:\n" + log[-3000:])
+    _IMPORTS_BUILT.add(imports)
+
+
 def run_coq_cases(prop_id, imports, terms, shard=200, jobs=16, timeout=900, tag="cases"):
     """Evaluate Gallina terms of type `list Z` with vm_compute; return list of int lists.
 
@@ -359,6 +381,7 @@ def run_coq_cases(prop_id, imports, terms, shard=200, jobs=16, timeout=900, tag=
     """
     wd = os.path.join(WORK, prop_id)
     os.makedirs(wd, exist_ok=True)
+    ensure_imports_built(imports)
     for f in os.listdir(wd):
         if f.startswith(tag + "_"):
             os.remove(os.path.join(wd, f))
